@@ -642,8 +642,9 @@ theorem samePart_of_le_one (cx cy : Vector Int n) (hn : ¬ 1 < n) : samePart cx 
   subst this
   exact ⟨fun _ => rfl, fun _ => rfl⟩
 
-/-- the normalised variation of information lies in `[0, 1]` — for every `n` (the code returns 0 for `n ≤ 1`) -/
-theorem VIn_range (cx cy : Vector Int n) : 0 ≤ VIn cx cy ∧ VIn cx cy ≤ 1 := by
+/-- the normalised variation of information lies in `[0, 1]` — for every `n ≥ 1` (the code returns 0 for `n = 1`; on zero nodes
+it raises ValueError, which the driver mirrors, so `n = 0` is outside the theorem) -/
+theorem VIn_range (cx cy : Vector Int n) (_hn : 0 < n) : 0 ≤ VIn cx cy ∧ VIn cx cy ≤ 1 := by
   unfold VIn
   by_cases hn : 1 < n
   · have hpos : 0 < n := by omega
@@ -655,8 +656,8 @@ theorem VIn_range (cx cy : Vector Int n) : 0 ≤ VIn cx cy ∧ VIn cx cy ≤ 1 :
       exact PartEntropy.VI_le_log _ _ _ hpos (total_eq cx cy)
   · rw [if_neg hn]; exact ⟨le_refl 0, zero_le_one⟩
 
-/-- zero variation of information exactly when the partitions coincide up to renaming — for every `n` -/
-theorem VIn_eq_zero_iff (cx cy : Vector Int n) : VIn cx cy = 0 ↔ samePart cx cy := by
+/-- zero variation of information exactly when the partitions coincide up to renaming — for every `n ≥ 1` -/
+theorem VIn_eq_zero_iff (cx cy : Vector Int n) (_hn : 0 < n) : VIn cx cy = 0 ↔ samePart cx cy := by
   unfold VIn
   by_cases hn : 1 < n
   · have hpos : 0 < n := by omega
@@ -750,13 +751,13 @@ theorem Hof_eq_zero_of_le_one (c : Vector Int n) (hn : ¬ 1 < n) : Hof c = 0 := 
   have := Finset.card_le_univ (univ.filter fun v : Fin n => decide (c[v] = ℓ) = true)
   rwa [Fintype.card_fin] at this
 
-/-- **`(VIn, MIn) = (0, 1)` exactly when the two partitions coincide up to renaming** — for every `n` and every pair of
+/-- **`(VIn, MIn) = (0, 1)` exactly when the two partitions coincide up to renaming** — for every `n ≥ 1` and every pair of
 partitions (the guards `n > 1`, `Hx + Hy > 0` of the code make the single-module and single-node cases return `(0, 1)`) -/
-theorem pd_zero_one_iff (cx cy : Vector Int n) : (VIn cx cy = 0 ∧ MIn cx cy = 1) ↔ samePart cx cy := by
+theorem pd_zero_one_iff (cx cy : Vector Int n) (hn0 : 0 < n) : (VIn cx cy = 0 ∧ MIn cx cy = 1) ↔ samePart cx cy := by
   constructor
-  · intro h; exact (VIn_eq_zero_iff cx cy).mp h.1
+  · intro h; exact (VIn_eq_zero_iff cx cy hn0).mp h.1
   · intro h
-    refine ⟨(VIn_eq_zero_iff cx cy).mpr h, ?_⟩
+    refine ⟨(VIn_eq_zero_iff cx cy hn0).mpr h, ?_⟩
     unfold MIn
     by_cases hn : 1 < n
     · have h0 := (VI_eq_zero_iff_same cx cy (by omega)).mpr h
@@ -867,15 +868,15 @@ example : tableSum (fun k => k * k) (c1.map g7) (c2.map (· + 100)) = tableSum (
   tableSum_inv _ _ _ g7_inj shift_mono.injective
 example : samePart c1 (c1.map g7) := samePart_map c1 g7_inj
 example : ¬ samePart c1 c2 := by decide
-example : 0 ≤ VIn c1 c2 ∧ VIn c1 c2 ≤ 1 := VIn_range c1 c2
-example : VIn c1 c2 ≠ 0 := fun h => absurd ((VIn_eq_zero_iff c1 c2).mp h) (by decide)
+example : 0 ≤ VIn c1 c2 ∧ VIn c1 c2 ≤ 1 := VIn_range c1 c2 (by decide)
+example : VIn c1 c2 ≠ 0 := fun h => absurd ((VIn_eq_zero_iff c1 c2 (by decide)).mp h) (by decide)
 example : VIn c1 (c1.map g7) = 0 ∧ MIn c1 (c1.map g7) = 1 :=
-  (pd_zero_one_iff c1 (c1.map g7)).mpr (samePart_map c1 g7_inj)
+  (pd_zero_one_iff c1 (c1.map g7) (by decide)).mpr (samePart_map c1 g7_inj)
 /-- both single-module (formerly `(0, nan)`) and a single node (formerly `(nan, nan)`) -/
 example : VIn (#v[7, 7, 7] : Vector Int 3) #v[2, 2, 2] = 0 ∧ MIn (#v[7, 7, 7] : Vector Int 3) #v[2, 2, 2] = 1 :=
-  (pd_zero_one_iff _ _).mpr (by decide)
+  (pd_zero_one_iff _ _ (by decide)).mpr (by decide)
 example : VIn (#v[7] : Vector Int 1) #v[2] = 0 ∧ MIn (#v[7] : Vector Int 1) #v[2] = 1 :=
-  (pd_zero_one_iff _ _).mpr (by decide)
+  (pd_zero_one_iff _ _ (by decide)).mpr (by decide)
 example : ci2ls c0 = [[3], [0, 1], [2]] := by decide +kernel
 example : ls2ci ((ci2ls c0).map (·.map Fin.val)) 1 = .ok [2, 2, 3, 1] := by
   rw [ls2ci_ci2ls]; decide +kernel
